@@ -4,18 +4,44 @@ import PycsepVerif.Model.ForecastIter
 namespace Drive.C13
 open Proto ForecastIter
 
+/-- an event is `keep:cell` or `keep:cell:own` (`own` = its bin on the grid of the region the catalog is bound to) -/
 def parseEv? (s : String) : Option Ev :=
   match s.splitOn ":" with
   | [k, c] => do
       let kn ← k.toNat?
       let cn ← c.toNat?
       some { keep := kn != 0, cell := cn }
+  | [k, c, o] => do
+      let kn ← k.toNat?
+      let cn ← c.toNat?
+      let on ← o.toNat?
+      some { keep := kn != 0, cell := cn, own := on }
   | _ => none
 
-/-- catalogs separated by `;`, events by `,`, an event is `keep:cell`, an empty catalog is `-`; ids are positions -/
-def parseCats? (s : String) : Option (List Cat) := do
-  let groups ← (s.splitOn ";").mapM (parseList? parseEv?)
-  some ((List.range groups.length).zip groups |>.map (fun (i, evs) => { id := i, events := evs }))
+def parseId? (s : String) : Option (Option Nat) :=
+  if s = "none" then some none else s.toNat?.map some
+
+/-- catalogs separated by `;`, events by `,`, an empty catalog is `-`.  A catalog is either just its events (its id is
+    its position, unbound, no statements carried) or `<id|none>.<grid>.<carries 0/1>=<events>` -/
+def parseCat? (pos : Nat) (s : String) : Option Cat :=
+  match s.splitOn "=" with
+  | [evs] => do
+      let evs ← parseList? parseEv? evs
+      some { id := some pos, events := evs }
+  | [hd, evs] => do
+      let evs ← parseList? parseEv? evs
+      match hd.splitOn "." with
+      | [i, g, k] => do
+          let i ← parseId? i
+          let g ← g.toNat?
+          let k ← k.toNat?
+          some { id := i, events := evs, grid := g, carries := k != 0 }
+      | _ => none
+  | _ => none
+
+def parseCats? (s : String) : Option (List Cat) :=
+  let groups := s.splitOn ";"
+  ((List.range groups.length).zip groups).mapM (fun (i, g) => parseCat? i g)
 
 def parseOp? : String → Option Op
   | "P" => some .fullPass | "E" => some .getEventCounts | "R" => some .getExpectedRates
@@ -24,7 +50,7 @@ def parseOp? : String → Option Op
   | _ => none
 
 def showEv (e : Ev) : String := s!"{if e.keep then 1 else 0}:{e.cell}"
-def showCat (c : Cat) : String := s!"{c.id}={showList showEv c.events}"
+def showCat (c : Cat) : String := s!"{showOpt toString c.id}={showList showEv c.events}"
 def showOut : Out → String
   | .cats l => "c" ++ (if l.isEmpty then "-" else ";".intercalate (l.map showCat))
   | .counts l => "n" ++ showList toString l
